@@ -319,6 +319,10 @@ func (w *world) buildArg(a []interface{}) (*pb.Arg, error) {
 		if f, ok := m["type"].(float64); ok {
 			ib.Type = pb.IBTP_Type(int32(f))
 		}
+		if b, ok := m["payload"].(bool); ok && b {
+			ct := &pb.Content{Func: "f", Args: [][]byte{[]byte("x")}}
+			ib.Payload, _ = ct.Marshal()
+		}
 		ib.TimeoutHeight = 1000
 		b, err := ib.Marshal()
 		return pb.Bytes(b), err
@@ -575,7 +579,7 @@ func errClass(ret string) string {
 	case strings.Contains(r, "does not have the permission") || strings.Contains(r, "have no permission") || strings.Contains(r, "no permission") ||
 		strings.Contains(r, "is not allowed") || strings.Contains(r, "is not an admin account"):
 		return "no_permission"
-	case strings.Contains(r, "reflect:") || strings.Contains(r, "index out of range") || strings.Contains(r, "interface conversion") ||
+	case strings.Contains(r, "reflect:") || strings.Contains(r, "index out of range") || strings.Contains(r, "slice bounds out of range") || strings.Contains(r, "interface conversion") ||
 		strings.Contains(r, "nil pointer") || strings.Contains(r, "invalid memory address"):
 		return "panic"
 	case strings.Contains(r, "does not belong to you"):
@@ -792,7 +796,54 @@ func panicLine(stderr string) string {
 func main() {
 	hx.Main(map[string]func(args []string) error{
 		"surface": func(_ []string) error {
-			return hx.Lines(runHistory)
+			// histories are independent (own world, own temp dir, own child process): run them on a
+			// small worker pool and print the results in input order
+			sc := bufio.NewScanner(os.Stdin)
+			sc.Buffer(make([]byte, 1<<20), 1<<28)
+			var lines [][]byte
+			for sc.Scan() {
+				if len(sc.Bytes()) > 0 {
+					lines = append(lines, append([]byte(nil), sc.Bytes()...))
+				}
+			}
+			if err := sc.Err(); err != nil {
+				return err
+			}
+			par := 8
+			if v, err := strconv.Atoi(os.Getenv("VERIF_PAR")); err == nil && v > 0 {
+				par = v
+			}
+			results := make([]interface{}, len(lines))
+			errs := make([]error, len(lines))
+			jobs := make(chan int)
+			done := make(chan bool)
+			for wk := 0; wk < par; wk++ {
+				go func() {
+					for i := range jobs {
+						results[i], errs[i] = runHistory(lines[i])
+					}
+					done <- true
+				}()
+			}
+			for i := range lines {
+				jobs <- i
+			}
+			close(jobs)
+			for wk := 0; wk < par; wk++ {
+				<-done
+			}
+			w := bufio.NewWriterSize(os.Stdout, 1<<20)
+			defer w.Flush()
+			enc := json.NewEncoder(w)
+			for i := range lines {
+				if errs[i] != nil {
+					return errs[i]
+				}
+				if err := enc.Encode(results[i]); err != nil {
+					return err
+				}
+			}
+			return nil
 		},
 		"surface-child": func(_ []string) error {
 			if os.Getenv("VERIF_SURFACE_STDERR") == "" {
